@@ -1060,10 +1060,67 @@ class Evaluator:
             fh, hd, hexits = run_handler(caught[0], caught[1], extra, [])
             new_exits.extend(hexits)
             results.append((tm.land(extra), fh, hd))
+        abrupt_finally = bool(st.finalbody) and any(isinstance(n, (ast.Return, ast.Raise, ast.Break, ast.Continue)) for b in st.finalbody for n in ast.walk(b))
+        if abrupt_finally:
+            # `finally` runs on every way out of the statement; when it completes abruptly itself (return / raise / break /
+            # continue) it REPLACES the pending exit -- `finally: return status` turns every exception the handlers did not
+            # catch into a normal return
+            replaced = []
+            hnames = set()
+            for h, _ns in handled:
+                hnames |= set(assigned_names(h.body))
+            for ex in new_exits:
+                ff = fr.fork()
+                ff.guard = list(ex.guard)
+                ff.facts = list(pre_facts)
+                ff.env = clone(pre_env)
+                for nm in set(assigned_names(st.body)) | hnames:
+                    if nm in fr.env and not tm.veq(fr.env.get(nm), pre_env.get(nm)):
+                        ff.env[nm] = T("maybe", (tm._fz(pre_env.get(nm, T("undef", (nm,)))), tm._fz(fr.env[nm])))
+                k0 = len(fr.summary.exits)
+                try:
+                    fdone = self.block(st.finalbody, ff)
+                except (_Break, _Continue):
+                    fdone = True
+                    fr.env["__loopctl__"] = True
+                fexits = fr.summary.exits[k0:]
+                del fr.summary.exits[k0:]
+                replaced.extend(fexits)
+                if not fdone:
+                    replaced.append(ex)
+            # exceptions of primitives inside the body that no handler names: they too run into the finally block
+            if not body_inert and not any(n in ("BaseException", "Exception") for _h, ns in handled for n in ns):
+                g = T("except", (("<uncaught>",), _try_key(st)), tm.BOOL)
+                ff = fr.fork()
+                ff.guard = list(fr.guard) + [g]
+                ff.facts = list(pre_facts)
+                ff.env = clone(pre_env)
+                for nm in assigned_names(st.body):
+                    if nm in fr.env and not tm.veq(fr.env.get(nm), pre_env.get(nm)):
+                        ff.env[nm] = T("maybe", (tm._fz(pre_env.get(nm, T("undef", (nm,)))), tm._fz(fr.env[nm])))
+                k0 = len(fr.summary.exits)
+                try:
+                    self.block(st.finalbody, ff)
+                except (_Break, _Continue):
+                    fr.env["__loopctl__"] = True
+                replaced.extend(fr.summary.exits[k0:])
+                del fr.summary.exits[k0:]
+            new_exits = replaced
         fr.summary.exits.extend(new_exits)
-        if st.finalbody:
-            self.block(st.finalbody, fr)
         live = [(g, fh) for g, fh, hd in results if not hd]
+        if st.finalbody:
+            # the normal ways through: the body's own completion and every handler that completed
+            if not body_done:
+                if self.block(st.finalbody, fr):
+                    body_done = True
+            keep = []
+            for g_, fh_ in live:
+                k0 = len(fr.summary.exits)
+                if abrupt_finally:
+                    if self.block(st.finalbody, fh_):
+                        continue  # this handler flow ends in the finally block
+                keep.append((g_, fh_))
+            live = keep
         if body_done and not live:
             return True
         if body_done:
